@@ -13,7 +13,8 @@ THEOREMS = ["C06_accept_iff_conforms", "C06_conforms_flat_exact_keys", "C06_reje
             "C06_define_error_keeps_schema", "C06_define_existing_rejected", "C06_define_error_iff", "C06_define_append_only",
             "C06_define_ok_appends", "C06_reachable_wf",
             "C06_float_time_refuted", "C06_accept_iff_strict_outside_known",
-            "C06_text_refuted", "C06_text_accept_iff_conforms_outside_known", "C06_text_reject_no_trace", "C06_blank_spec"]
+            "C06_text_refuted", "C06_text_accept_iff_conforms_outside_known", "C06_text_reject_no_trace", "C06_blank_spec",
+            "C06_alias_resolution", "C06_alias_case_insensitive", "C06_unknown_spec_is_string"]
 RULE = ("schemas (1-5 fields over every primitive alias in random case, `T | null` unions in both orders, malformed "
         "specs, enums, date/datetime) x payloads (a conforming payload per the property text, then 0-2 mutations: "
         "missing / extra / misspelled key, a value of every JSON type in a slot, i64/u64 boundary integers, floats in "
@@ -579,6 +580,10 @@ def gen_payload(rng, fields):
     for _ in range(k):
         m = rng.choice(["missing", "extra", "misspell", "anyval", "anyval", "anyval", "wrongcase", "badtime", "floatint", "boundary", "nested", "notobject", "hugetime"])
         f = rng.choice(names)
+        if m in ("badtime", "hugetime"):
+            tf = [n for n, sp in fields if (declared(sp) or ("", False))[0] in ("Timestamp", "Date")]
+            if tf:
+                f = rng.choice(tf)
         if m == "missing":
             p.pop(f, None)
         elif m == "extra":
@@ -736,7 +741,7 @@ def cases(rng, tier):
         f2 = gen_schema(rng) if rng.chance(2, 3) else [(n, rng.choice(["string", "int", "bool | null"])) for n, _ in f1]
         if rng.chance(1, 12):
             f1 = []
-        if rng.chance(1, 12):
+        if rng.chance(1, 6):
             f2 = []
         for pi in range(3):
             src = f1 if (pi != 1 or not f2) else f2      # a payload shaped for the first or for the second schema
